@@ -13,6 +13,8 @@
  *                                   ("n <rc>" after a chain callback's nested schedule), "r X <rc>"
  *   A                               tdma_sched_advance()
  *   R                               tdma_sched_reset()
+ *   G <fn> <p3> tok...              sched_gsmtime(set, fn, p3) (one-shot at an absolute GSM time)  -> "r G <rc>"
+ *   E <fn>                          sched_gsmtime_execute(fn)                                       -> "r E <rc>"
  */
 #include <stdio.h>
 #include <stdlib.h>
@@ -21,8 +23,13 @@
 
 #include <layer1/sync.h>
 #include <layer1/tdma_sched.h>
+#include <layer1/sched_gsmtime.h>
 
 struct l1s_state l1s;
+
+/* sets handed to sched_gsmtime() must stay valid until they fire: kept until the next case */
+static struct tdma_sched_item *kept[4096];
+static int nkept;
 
 struct follow { int used; int off, prio, p1, p2, p3; };
 static struct follow follow[65536];
@@ -48,12 +55,15 @@ static int cb_chain(uint8_t p1, uint8_t p2, uint16_t p3)
 int main(void)
 {
 	static char line[8192];
+	sched_gsmtime_init();
 	while (fgets(line, sizeof(line), stdin)) {
 		int off, prio, p1, p2, p3, rc;
 		switch (line[0]) {
 		case 'N':
 			memset(&l1s.tdma_sched, 0, sizeof(l1s.tdma_sched));
 			memset(follow, 0, sizeof(follow));
+			sched_gsmtime_reset();
+			while (nkept > 0) free(kept[--nkept]);
 			printf("CASE %d\n", atoi(line + 1));
 			break;
 		case 'S':
@@ -91,6 +101,36 @@ int main(void)
 			rc = tdma_schedule_set(off, set, p3);
 			printf("r T %d\n", rc);
 			free(set);
+			break;
+		}
+		case 'G': {
+			struct tdma_sched_item *set = calloc(64, sizeof(*set));
+			int n = 0, consumed = 0;
+			unsigned fn;
+			char *tok, *save;
+			if (sscanf(line + 1, "%u %d%n", &fn, &p3, &consumed) != 2) return 2;
+			for (tok = strtok_r(line + 1 + consumed, " \n", &save); tok && n < 62; tok = strtok_r(NULL, " \n", &save)) {
+				if (tok[0] == 'f') {
+					set[n].cb = NULL;
+					n++;
+				} else if (tok[0] == 'i') {
+					if (sscanf(tok, "i:%d:%d:%d", &prio, &p1, &p2) != 3) return 2;
+					set[n].cb = cb_plain; set[n].prio = prio; set[n].p1 = p1; set[n].p2 = p2;
+					set[n].p3 = 0xdead;
+					n++;
+				}
+			}
+			set[n].cb = &tdma_end_set;
+			if (nkept < 4096) kept[nkept++] = set;
+			rc = sched_gsmtime(set, fn, p3);
+			printf("r G %d\n", rc);
+			break;
+		}
+		case 'E': {
+			unsigned fn;
+			if (sscanf(line + 1, "%u", &fn) != 1) return 2;
+			rc = sched_gsmtime_execute(fn);
+			printf("r E %d\n", rc);
 			break;
 		}
 		case 'X':
